@@ -2,6 +2,8 @@ SPECIFICATION Spec
 CONSTANT MaxN = 3
 CONSTANT MinN = 1
 CONSTANT Places = {"Cpu", "Npu", "MemN", "MemC"}
+CONSTANT MultiOut = FALSE
+CONSTANT SinkSees = "all"
 CONSTANT AllowExtra = TRUE
 INVARIANT TypeOK
 INVARIANT TopoOrder
